@@ -79,7 +79,7 @@ def rand_tensor(rng, mods, legs, labels, cplx):
     return dict(legs=legs, qtotal=qtotal, labels=labels, cplx=cplx, missing=missing, shape=shape)
 
 
-def rand_config(rng, max_size=40):
+def rand_config(rng, max_size=40, kind_hint=None):
     """Two initial tensors that can interact: T2 shares/conjugates legs of T1."""
     for _ in range(200):
         mods = rng.choice(MOD_CHOICES)
@@ -90,7 +90,7 @@ def rand_config(rng, max_size=40):
             legs1[-1] = conj_leg(legs1[0])
         names = ['a', 'b', 'c', 'd']
         labels1 = [[names[i]] if rng.random() < 0.8 else [] for i in range(r1)]
-        kind = rng.random()
+        kind = rng.random() if kind_hint is None else (0.2, 0.6, 0.9)[kind_hint % 3]
         if kind < 0.4:
             # same legs (add / inner with do_conj / concatenate)
             legs2 = [dict(l) for l in legs1]
@@ -115,8 +115,17 @@ def rand_config(rng, max_size=40):
         t1 = rand_tensor(rng, mods, legs1, labels1, cplx)
         t2 = rand_tensor(rng, mods, legs2, labels2, rng.random() < 0.4)
         if kind < 0.4:
+            # same legs and total charge: T1 and T2 store different, overlapping sets of blocks
             t2['qtotal'] = list(t1['qtotal'])
-            t2['missing'] = [b for b in t2['missing']]
+            import itertools
+            blocks = [b for b in itertools.product(*[range(len(l['sizes'])) for l in legs1])
+                      if make_valid([sum(l['qconj'] * l['charges'][bi][k] for l, bi in zip(legs1, b)) for k in range(len(mods))], mods) == t1['qtotal']]
+            if len(blocks) >= 2:
+                rng.shuffle(blocks)
+                t1['missing'] = [blocks[0]] + [b for b in blocks[2:] if rng.random() < 0.2]
+                t2['missing'] = [blocks[1]] + [b for b in blocks[2:] if rng.random() < 0.2]
+            else:
+                t2['missing'] = []
         # a third, small tensor (vector or thin matrix) contractible with a leg of T1: matvec-like products and
         # outer products stay small
         j = rng.randrange(r1)
@@ -127,7 +136,7 @@ def rand_config(rng, max_size=40):
             labels3.append(['f'])
         t3 = rand_tensor(rng, mods, legs3, labels3, rng.random() < 0.3)
         t3['missing'] = []
-        if rng.random() < 0.35 and r1 >= 2:
+        if kind >= 0.4 and rng.random() < 0.4 and r1 >= 2:
             # the partner is T1 with two legs already combined into a pipe (so split_legs is enabled at once)
             g = rng.sample(range(r1), 2)
             t2 = dict(combine_of=0, group=[x + 1 for x in g], qconj=rng.choice([1, -1]))
@@ -615,7 +624,7 @@ def generate(seed, n_configs, mc_ops=1, sim_num=8, sim_ops=6, procs=4, workers=4
     rng = random.Random(seed)
     jobs = []
     for i in range(n_configs):
-        cfg = rand_config(rng, max_size=max_size)
+        cfg = rand_config(rng, max_size=max_size, kind_hint=i)
         jobs.append((i, cfg, seed * 1000 + i + 1, mc_ops, sim_num, sim_ops, workers, timeout))
     with ThreadPoolExecutor(max_workers=procs) as ex:
         return list(ex.map(_run_one, jobs))
